@@ -3,6 +3,7 @@
    Config line:  C keepUnref [constValue]      (constValue = 1: the resolver returns the constant value 7 for every generation;
                                                  then only the Access clauses 10.4 - 10.7 are judged)
    Events:   1 c        SetContext (c = 0: nil)
+             14 c       the owner of root context c (1..3) cancels it; the RefCount is not told
              13 c res   the callback of Access consumer c returns: 0 nil, 1 its ctx.Err(), 10/11 an error of its own
              2 k        AddRef with callback kind k: 0 nil, 1 logging, 2 logging and calling released() of the value's generation
              3 r        Ref.Release of reference r (flag swap; if it is the first release, a release actor parks before removeRef)
@@ -127,6 +128,7 @@ Definition hstep (h : hst) (e : list N) : option (hst * list N) :=
     | None => None
     end
   | [10; k] => if N.leb k 2 then fin (start_consumer repaired s (match k with 0 => CKWait | 1 => CKWwr | _ => CKAccess end)) [] else None
+  | [14; c] => if N.leb 1 c && N.leb c 3 then fin (cancel_root s (n2n c)) [] else None
   | [13; c; res] =>
     match nth_error (conss s) (n2n c) with
     | Some x => match ck x, cpcv x with
@@ -240,16 +242,17 @@ Record mst := {
   m_acanc : list bool;              (* ... and its callback context was cancelled then *)
   m_ainv : list bool;               (* ... the value of the running invocation was invalidated since the invocation started *)
   m_adec : list (option (N * bool));(* per Access consumer: it decided to return: expected code, decided by a callback result *)
+  m_rootc : list N;                 (* root contexts cancelled by their owner *)
 }.
 
 Definition minit (cfg : list N) : option mst :=
   match cfg with
   | [k] => Some {| m_keep := nz k; m_ctx := 0; m_in := []; m_kind := []; m_raref := []; m_cref := []; m_out := []; m_called := [];
                    m_cur := None; m_ng := 0; m_inval := []; m_ckind := []; m_cret := []; m_const := false; m_gs := [];
-                   m_ccanc := []; m_acb := []; m_acanc := []; m_ainv := []; m_adec := [] |}
+                   m_ccanc := []; m_acb := []; m_acanc := []; m_ainv := []; m_adec := []; m_rootc := [] |}
   | [k; c] => Some {| m_keep := nz k; m_ctx := 0; m_in := []; m_kind := []; m_raref := []; m_cref := []; m_out := []; m_called := [];
                       m_cur := None; m_ng := 0; m_inval := []; m_ckind := []; m_cret := []; m_const := nz c; m_gs := [];
-                      m_ccanc := []; m_acb := []; m_acanc := []; m_ainv := []; m_adec := [] |}
+                      m_ccanc := []; m_acb := []; m_acanc := []; m_ainv := []; m_adec := []; m_rootc := [] |}
   | _ => None
   end.
 
@@ -270,6 +273,7 @@ Definition mon1 (m : mst) (e : list N) (p : pobs) : mst * list (nat * nat) :=
   let spawned := Nat.ltb (m_ng m) ng in
   (* ---- reference machine ---- *)
   let ctx' := match e with [1; c] => c | _ => m_ctx m end in
+  let rootc' := match e with [14; c] => c :: m_rootc m | _ => m_rootc m end in
   let nref_before := length (m_in m) in
   let in1 := match e with
              | [2; _] | [10; _] => (m_in m ++ [true])%list
@@ -336,7 +340,7 @@ Definition mon1 (m : mst) (e : list N) (p : pobs) : mst * list (nat * nat) :=
               (zip3 in1 kind' (po_refs p))
     | None => false
     end in
-  let f9_3 := fails 9 3 (negb (quiet && nz ctx' && Nat.ltb 0 nin) || existsb (N.eqb 3) (po_gs p) || delivered) in
+  let f9_3 := fails 9 3 (negb (quiet && nz ctx' && negb (mem ctx' rootc') && Nat.ltb 0 nin) || existsb (N.eqb 3) (po_gs p) || delivered) in
   let f9_4 := fails 9 4 (match e with
                          | [5; g] => match m_cur m with
                                      | Some (c, _) => negb (N.eqb c g) || (N.eqb (po_target p) 0 && N.eqb (po_terr p) 0
@@ -360,6 +364,14 @@ Definition mon1 (m : mst) (e : list N) (p : pobs) : mst * list (nat * nat) :=
               | Some (g, _), None => Some g
               | Some (g, _), Some (g', _) => if N.eqb g g' then None else Some g
               | None, _ => None
+              end in
+  (* released() of the stored generation, called from outside, is an invalidation whatever is observed afterwards *)
+  let lost := match lost with
+              | Some g => Some g
+              | None => match e, m_cur m with
+                        | [5; g], Some (c, _) => if N.eqb c g then Some g else None
+                        | _, _ => None
+                        end
               end in
   let inval' := map (fun t => let '(iv, hv, k) := t in
                        iv || (N.eqb k 1 && match lost, hv with Some g, Some v => N.eqb v (g + 1) | _, _ => false end))
@@ -418,7 +430,7 @@ Definition mon1 (m : mst) (e : list N) (p : pobs) : mst * list (nat * nat) :=
       m_acb := map (fun j => let '(a, _, _, _, _) := j in a) judged;
       m_acanc := map (fun j => let '(_, a, _, _, _) := j in a) judged;
       m_ainv := map (fun j => let '(_, _, a, _, _) := j in a) judged;
-      m_adec := map (fun j => let '(_, _, _, a, _) := j in a) judged |},
+      m_adec := map (fun j => let '(_, _, _, a, _) := j in a) judged; m_rootc := rootc' |},
    ((if m_const m then [] else all) ++ facc)%list).
 
 Definition mon (m : option mst) (e o : list N) : option mst * list (nat * nat) :=
